@@ -407,7 +407,7 @@ def rc_post(I, outcome, ctx):
 
 
 SPECS.append(FucSpec(
-    'C07', MGR, 'Manager.registerChild', rc_setup, rc_post, fields=TREE_FIELDS, calls={'self.root._queue.drainFrom': s_drain},
+    'C07', MGR, 'Manager.registerChild', rc_setup, rc_post, fields=TREE_FIELDS, calls={'*.drainFrom': s_drain},
     exc_parents={'UnregistrableError': 'Exception'}, cover=['return', 'unregistrable'],
     clause='registerChild(c): c joins self.components, c\'s queued events are drained into the root queue, the root cache is '
            'invalidated; refused (nothing changed) only when both trees are running'))
